@@ -19,6 +19,8 @@ CONFIGS = [
     ("ext4_nocsum", ["-t", "ext4", "-b", "1024", "-O", "^metadata_csum,uninit_bg"]),
     ("ext4_norsz_g256", ["-t", "ext4", "-b", "1024", "-O", "^resize_inode", "-g", "256", "-N", "768"]),     # growing moves inode tables
     ("ext4_fewinodes", ["-t", "ext4", "-b", "1024", "-g", "2048", "-N", "400"]),                             # shrinking renumbers inodes
+    ("ext4_fewinodes_linear", ["-t", "ext4", "-b", "1024", "-O", "^dir_index", "-g", "2048", "-N", "400"]),            # linear directories keep their emptied blocks
+    ("ext2_norsz_g256", ["-t", "ext2", "-b", "1024", "-O", "^resize_inode", "-g", "256", "-N", "1024"]),               # no flex_bg: growing past the descriptor blocks moves inode tables (move_itables flushes in mid-run)
     ("ext4_inline_fewinodes", ["-t", "ext4", "-b", "1024", "-O", "inline_data", "-g", "2048", "-N", "400"]),  # ... referenced from inline directories
 ]
 KINDS = ["grow", "shrink", "min", "grow", "shrink", "same"]
@@ -112,7 +114,7 @@ def one_case(src, mexe, idx, seed, tier):
     start = START[(idx // len(CONFIGS)) % len(START)]
     fill = r.choice([0.15, 0.35, 0.55])
     kw = {}
-    if name in ("ext4_fewinodes", "ext4_inline_fewinodes") or (idx // len(CONFIGS)) % 5 == 4:
+    if name in ("ext4_fewinodes", "ext4_inline_fewinodes", "ext4_fewinodes_linear") or (idx // len(CONFIGS)) % 5 == 4:
         fill = 0.1
         kw = {"filler_fraction": 0.8, "nfiles": 60}
     eahigh = False
@@ -128,6 +130,8 @@ def one_case(src, mexe, idx, seed, tier):
     kind = KINDS[(idx // len(CONFIGS)) % len(KINDS)] if idx < 4 * len(CONFIGS) else r.choice(KINDS)
     if eahigh:
         kind = r.choice(["shrink", "min", "shrink"])
+    if name == "ext2_norsz_g256":
+        kind = "grow"
     env = e2v.tool_env(src, RESIZE2FS_FORCE_LAZY_ITABLE_INIT="1") if r.random() < 0.5 else e2v.tool_env(src)
     if kind == "min":
         args = ["-M"]
@@ -136,9 +140,9 @@ def one_case(src, mexe, idx, seed, tier):
         req = pick_target(r, fs0, kind)
         if eahigh and kind == "shrink":
             req = fs0.blocks_count // 2 + r.randint(0, fs0.blocks_count // 8)
-        elif kw and kind == "shrink" and fs0.groups_count > 2 and (r.random() < 0.7 or "inline" in name):
+        elif kw and kind == "shrink" and fs0.groups_count > 2 and (r.random() < 0.7 or "inline" in name or "fewinodes" in name):
             # drop only the last group(s): their block-less inodes are renumbered while no block has to move
-            req = fs0.first_data_block + (fs0.groups_count - (2 if "inline" in name else r.choice([1, 1, 2]))) * fs0.blocks_per_group
+            req = fs0.first_data_block + (fs0.groups_count - (2 if ("inline" in name or "fewinodes" in name) else r.choice([1, 1, 2]))) * fs0.blocks_per_group
         args = [str(req)]
     extra = r.choice([[], [], ["-f"], ["-p"]])
     recipe = {"config": name, "mke2fs": opts, "start": start, "fill": fill, "kind": kind, "args": extra + args, "case_index": idx}
@@ -257,7 +261,7 @@ def run(res, replay=None):
     ]
     res.cov["partial"] = ["proved: the geometry retry loop of adjust_fs_info and the crash protocol (error flag); the block mover, inode renumbering, inode-table moves and bitmap rebuilding are validated per run by the tree comparison and the independent consistency reader, not modelled",
                           "online resize (mounted filesystem) is out of reach in the sandbox; bigalloc and inline_data are outside the independent reader"]
-    n = 48 if tier == "quick" else 2400
+    n = 60 if tier == "quick" else 2400
     idxs = [json.load(open(replay))["recipe"]["case_index"]] if replay else list(range(n))
     with concurrent.futures.ThreadPoolExecutor(12) as ex:
         outs = list(ex.map(lambda i: one_case(src, mexe, i, seed, tier), idxs))
